@@ -121,6 +121,51 @@ pub fn check(ctx: &mut Ctx, m: &Message, origin: &'static str) {
     }
 }
 
+/// Messages whose signal descriptors are set through the public constructor `SigId::new`
+/// (any band, any attribute) -- values that a Deserialize impl might be unable to produce but a
+/// caller can, for each of the seven descriptor types and for the bias-list types.
+fn typed_signal_messages(ctx: &mut Ctx, rng: &mut Rng) {
+    use rtcm_rs::msg::*;
+    let mut descs: Vec<(u8, char)> = Vec::new();
+    for b in [0u8, 1, 2, 5, 9, 10, 12, 255] {
+        for a in "0123456789CX c-+. \"\\'".chars() {
+            descs.push((b, a));
+        }
+    }
+    for _ in 0..40 {
+        descs.push(crate::mutate::random_sig(rng));
+    }
+    macro_rules! msm {
+        ($c:expr, $var:ident, $sig:ty) => {{
+            let pos = crate::oracle::sig::positions($c)[0];
+            if let Ok(Some(Message::$var(t0))) = decode(&crate::c18::one_cell_frame($c, pos)) {
+                for &(b, a) in &descs {
+                    let mut t = t0.clone();
+                    for cell in t.data_segment.signal_data.iter_mut() {
+                        cell.signal_id = <$sig>::new(b, a);
+                    }
+                    check(ctx, &Message::$var(t), "typed_signal_descriptors");
+                }
+            }
+        }};
+    }
+    msm!(0, Msg1071, GpsSigId);
+    msm!(1, Msg1081, GloSigId);
+    msm!(2, Msg1091, GalSigId);
+    msm!(3, Msg1101, SbasSigId);
+    msm!(4, Msg1111, QzssSigId);
+    msm!(5, Msg1121, BdsSigId);
+    msm!(6, Msg1131, NavicSigId);
+    for &(b, a) in &descs {
+        let mut t = Msg1059T::default();
+        t.biases.push(Msg1059CodeBias { satellite_id: 3, signal_id: GpsSigId::new(b, a), bias_m: 0.25 });
+        check(ctx, &Message::Msg1059(t), "typed_signal_descriptors");
+        let mut t = Msg1230T::default();
+        t.glo_code_phase_biases.push(Msg1230CodePhaseBias { signal_id: GloSigId::new(b, a), bias_m: -0.5 });
+        check(ctx, &Message::Msg1230(t), "typed_signal_descriptors");
+    }
+}
+
 pub fn run(p: &Params) -> Outcome {
     let seed = p.seed;
     let n = p.size(150_000, 8_000_000);
@@ -131,6 +176,9 @@ pub fn run(p: &Params) -> Outcome {
         let mut rng = Rng::derive(seed, "C20", w as u64);
         let mut tpl = Templates::default();
         let nn = nums.len();
+        if w % 4 == 0 {
+            typed_signal_messages(ctx, &mut rng);
+        }
         check(ctx, &Message::Empty, "no_wire_form");
         check(ctx, &Message::Corrupt, "no_wire_form");
         check(ctx, &Message::MsgNotSupported(rtcm_rs::msg::message::MsgNotSupportedT { message_number: 4001 }), "no_wire_form");
